@@ -58,7 +58,11 @@ pub fn hook(p: Probe) -> bool {
                 g.reg_count += 1;
                 g.reg_count
             });
-            for a in inj_acts(InjPoint::Reg, j) {
+            let acts = inj_acts(InjPoint::Reg, j);
+            if !acts.is_empty() {
+                g(|g| g.logf(format_args!("inj reg {j} -")));
+            }
+            for a in acts {
                 perform(a, None);
             }
             false
@@ -68,16 +72,39 @@ pub fn hook(p: Probe) -> bool {
             let k = g.pop_count;
             g.inj.inc.contains(&k)
         }),
-        Probe::PopMid { .. } => {
+        Probe::PopMid { base, index } => {
             let k = g(|g| g.pop_count);
-            for a in inj_acts(InjPoint::Mid, k) {
+            let acts = inj_acts(InjPoint::Mid, k);
+            if !acts.is_empty() {
+                g(|g| {
+                    let b = g.block_containing(base);
+                    match b {
+                        Some(b) => g.logf(format_args!("inj mid {k} {b}.{index}")),
+                        None => g.logf(format_args!("inj mid {k} ?.{index}")),
+                    }
+                });
+            }
+            for a in acts {
                 perform(a, None);
             }
             false
         }
-        Probe::PopExit { .. } => {
+        Probe::PopExit { base, result, index } => {
             let k = g(|g| g.pop_count);
-            for a in inj_acts(InjPoint::Exit, k) {
+            let acts = inj_acts(InjPoint::Exit, k);
+            if !acts.is_empty() {
+                g(|g| {
+                    if result == 2 {
+                        match g.block_containing(base) {
+                            Some(b) => g.logf(format_args!("inj exit {k} {b}.{index}")),
+                            None => g.logf(format_args!("inj exit {k} ?.{index}")),
+                        }
+                    } else {
+                        g.logf(format_args!("inj exit {k} -"));
+                    }
+                });
+            }
+            for a in acts {
                 perform(a, None);
             }
             false
